@@ -19,7 +19,7 @@ type seedPair struct {
 }
 
 func runC04(c *Ctx) {
-	c.res.Rule = "MnemonicToSeed on: all (m,p) in Sigma^<=2 x Sigma^<=1 and Sigma^<=1 x Sigma^<=2 (thorough: Sigma^<=2 x Sigma^<=2) over a 16-letter Unicode probe alphabet (precomposed/decomposed, full-width, long compatibility expansions, half-width kana + voiced mark, reordering marks, Hangul, ligature, 18-char expansion, astral); Sigma^<=3 for one argument with the other fixed; byte-length ladders 0..300 of 'a', U+00E9 and U+3042 runs for each argument (HMAC block / SHA-512 padding boundaries); combining-mark run probes a+U+0301 x k. Oracle: byte equality with a hand-written PBKDF2-HMAC-SHA512 over CPython-NFKD forms, length 64, fresh slice on every call. distinct_nontrivial = distinct (mnemonic, passphrase) pairs"
+	c.res.Rule = "MnemonicToSeed on: all (m,p) in Sigma^<=2 x Sigma^<=1 and Sigma^<=1 x Sigma^<=2 (thorough: Sigma^<=2 x Sigma^<=2) over a 16-letter Unicode probe alphabet (precomposed/decomposed, full-width, long compatibility expansions, half-width kana + voiced mark, reordering marks, Hangul, ligature, 18-char expansion, astral); Sigma^<=3 for one argument with the other fixed; byte-length ladders 0..300 of 'a', U+00E9 and U+3042 runs for each argument (HMAC block / SHA-512 padding boundaries); every assigned code point whose NFKD differs from itself (5795 non-Hangul; Hangul syllables: all in thorough, every 97th in quick) alone as passphrase and (quick: every second) as mnemonic; combining-mark run probes a+U+0301 x k. Oracle: byte equality with a hand-written PBKDF2-HMAC-SHA512 over CPython-NFKD forms, length 64, fresh slice on every call. distinct_nontrivial = distinct (mnemonic, passphrase) pairs"
 	c.Assume("CPython unicodedata (Unicode 14) NFKD is the standard NFKD for the assigned code points used", "hand-written PBKDF2 cross-checked against OpenSSL via hashlib on every run")
 
 	var pairs []seedPair
@@ -62,6 +62,15 @@ func runC04(c *Ctx) {
 	// the three vectors' shape: a real sentence with a passphrase
 	pairs = append(pairs, seedPair{c.M.Encode(make([]byte, 16), 2), "TREZOR", true, "vector"},
 		seedPair{c.M.Encode(bytes.Repeat([]byte{0x80}, 32), ref.Japanese), "\u30e1\u30fc\u30c8\u30eb\u30ac\u30a6\u30a9\u30ec\u30c3\u30c8\u3000\uff11\uff12\uff13", true, "vector"})
+
+	// every assigned code point that NFKD changes, alone, as either argument
+	dec := c.decompSlice()
+	for i, d := range dec {
+		pairs = append(pairs, seedPair{"abandon", d.S, false, "single-code-point-passphrase"})
+		if c.Thorough || i%2 == 0 {
+			pairs = append(pairs, seedPair{d.S, "", false, "single-code-point-mnemonic"})
+		}
+	}
 
 	// NFKD of every distinct string from the independent oracle
 	uniq := map[string]int{}
@@ -116,18 +125,44 @@ func runC04(c *Ctx) {
 			c.Violate(key, fmt.Sprintf("MnemonicToSeed(%+q, %+q) = %x (panic=%q), PBKDF2 over NFKD forms gives %x", q.m, q.p, got, pn, want), cs)
 			return
 		}
-		if q.fresh {
-			keep := append([]byte(nil), got...)
-			for i := range got {
-				got[i] ^= 0xFF
+	})
+	// freshness, sequentially (no other call in between): the second of two identical
+	// calls must not be affected by overwriting the first result, nor share its memory;
+	// also with one different call in between
+	var nFresh int64
+	var prevPair *seedPair
+	for i := range pairs {
+		q := pairs[i]
+		if !q.fresh || (!c.Thorough && nFresh >= 150) {
+			continue
+		}
+		nFresh++
+		key := fmt.Sprintf("seed:%s:%s", hs(q.m), hs(q.p))
+		cs := map[string]interface{}{"kind": "seed-fresh", "mnemonic": hs(q.m), "passphrase": hs(q.p)}
+		first := bip39.MnemonicToSeed(q.m, q.p)
+		keep := append([]byte(nil), first...)
+		for k := range first {
+			first[k] ^= 0xFF
+		}
+		again := bip39.MnemonicToSeed(q.m, q.p)
+		c.Eval(2)
+		if !bytes.Equal(again, keep) || (len(again) > 0 && len(first) > 0 && &again[0] == &first[0]) {
+			c.Violate("fresh:"+key, fmt.Sprintf("MnemonicToSeed(%+q, %+q): a second identical call after the caller overwrote the first result gives %x, want %x (result not a fresh slice)", q.m, q.p, again, keep), cs)
+		}
+		if prevPair != nil {
+			for k := range again {
+				again[k] = 0
 			}
-			again := bip39.MnemonicToSeed(q.m, q.p)
-			c.Eval(1)
-			if !bytes.Equal(again, keep) || (len(again) > 0 && len(got) > 0 && &again[0] == &got[0]) {
-				c.Violate("fresh:"+key, fmt.Sprintf("MnemonicToSeed(%+q, %+q): second call after mutating the first result gives %x, want %x (shared backing array?)", q.m, q.p, again, keep), cs)
+			_ = bip39.MnemonicToSeed(prevPair.m, prevPair.p)
+			third := bip39.MnemonicToSeed(q.m, q.p)
+			c.Eval(2)
+			if !bytes.Equal(third, keep) {
+				c.Violate("fresh3:"+key, fmt.Sprintf("MnemonicToSeed(%+q, %+q): repeated after one other call and after the caller zeroed the earlier result gives %x, want %x", q.m, q.p, third, keep), cs)
 			}
 		}
-	})
+		prevPair = &pairs[i]
+	}
+	c.AddScope("freshness: identical consecutive calls with the first result overwritten (sequential)", nFresh, true, "")
 	c.SetExtra("pairs_by_class", classes)
 	c.AddScope("seed pairs over the probe alphabet, ladders and mark runs", int64(len(pairs)), true, "")
 	c.mu.Lock()
